@@ -113,19 +113,19 @@ where
     }
 
     fn size_hint(&self) -> (usize, Option<usize>) {
-        match &self.stream {
-            Some(s) => {
-                let queue_len = self.in_progress_queue.len();
-                let (lower, upper) = s.size_hint();
-                let lower = lower.saturating_add(queue_len);
-                let upper = match upper {
-                    Some(x) => x.checked_add(queue_len),
-                    None => None,
-                };
-                (lower, upper)
-            }
-            _ => (0, Some(0)),
-        }
+        let queue_len = self.in_progress_queue.len();
+        // once the stream is exhausted, the futures still in flight are all that is left
+        let (lower, upper) = self
+            .stream
+            .as_ref()
+            .map(|s| s.size_hint())
+            .unwrap_or((0, Some(0)));
+        let lower = lower.saturating_add(queue_len);
+        let upper = match upper {
+            Some(x) => x.checked_add(queue_len),
+            None => None,
+        };
+        (lower, upper)
     }
 }
 
@@ -181,19 +181,19 @@ where
     }
 
     fn size_hint(&self) -> (usize, Option<usize>) {
-        match &self.stream {
-            Some(s) => {
-                let queue_len = self.in_progress_queue.len();
-                let (lower, upper) = s.size_hint();
-                let lower = lower.saturating_add(queue_len);
-                let upper = match upper {
-                    Some(x) => x.checked_add(queue_len),
-                    None => None,
-                };
-                (lower, upper)
-            }
-            _ => (0, Some(0)),
-        }
+        let queue_len = self.in_progress_queue.len();
+        // once the stream is exhausted, the futures still in flight are all that is left
+        let (lower, upper) = self
+            .stream
+            .as_ref()
+            .map(|s| s.size_hint())
+            .unwrap_or((0, Some(0)));
+        let lower = lower.saturating_add(queue_len);
+        let upper = match upper {
+            Some(x) => x.checked_add(queue_len),
+            None => None,
+        };
+        (lower, upper)
     }
 }
 
